@@ -2,7 +2,7 @@
 from ..rules import holds
 from .common import hold_classes, declare
 
-RULES = ['SCRATCH-SLOT', 'HOLD-BEFORE-ESCAPE', 'REL-AFTER-AWAIT', 'EMIT-REL-TIMING', 'NO-REL-ON-FAIL', 'REL-WHILE-IN-FLIGHT', 'EMIT-BALANCE']
+RULES = ['EMIT-AFTER-REL', 'SCRATCH-SLOT', 'HOLD-BEFORE-ESCAPE', 'REL-AFTER-AWAIT', 'EMIT-REL-TIMING', 'NO-REL-ON-FAIL', 'REL-WHILE-IN-FLIGHT', 'EMIT-BALANCE']
 FLOORS = {'HOLD-BEFORE-ESCAPE': 14, 'REL-AFTER-AWAIT': 12, 'NO-REL-ON-FAIL': 15, 'EMIT-REL-TIMING': 1,
           'REL-WHILE-IN-FLIGHT': 1}
 
